@@ -19,9 +19,55 @@ def scheduled(sc, w):
     return {"sched": (7919 * sc.index + 13, [])}
 
 
-correspondence, search, replay, ASSUMPTIONS = runbase.make(
+_correspondence, search, replay, ASSUMPTIONS = runbase.make(
     "C15", [oracles.c15],
     [("std", 130, 1200, {}, None), ("dup", 70, 800, {}, dup), ("sched", 60, 600, {}, many_threads, scheduled)],
     "generated worlds, with duplicate and permuted torrent lists, with real threads and (stream sched) under seeded schedules of the deterministic scheduler in which every lock operation and every progress print is a scheduling point; stdout progress lines of the real run, in print order, vs piece count, per-piece outcomes and the export tree afterwards",
     "counters_sum / one line per piece on the model; success only after the found branch (solve_prog) ; tied to the code by trace validation and the progress-line oracle",
     ["'verifies afterwards' is checked for fault-free completed runs"])
+
+
+def dup_path_worlds(seed):
+    """Known finding K3: a files list that names one path twice."""
+    import worldgen
+    import vlib
+    out = []
+    for i in range(4):
+        rng = vlib.rng_for(seed, "C15dup/%d" % i)
+        w = worldgen.World()
+        w.put_dir((b"export",))
+        w.put_dir((b"scan0",))
+        w.scans = [(b"scan0",)]
+        L = rng.choice([2, 3, 4])
+        a, b = bytes(rng.randrange(1, 256) for _ in range(L)), bytes(rng.randrange(1, 256) for _ in range(L))
+        files = [worldgen.TFile([b"d", b"a"], a), worldgen.TFile([b"d", b"a"], b), worldgen.TFile([b"c"], bytes(rng.randrange(1, 256) for _ in range(rng.randint(1, L))))]
+        if i % 2:
+            files = [files[2], files[0], files[1]]
+        t = worldgen.TorrentSpec(b"dup%d" % i, L, files, False)
+        w.torrents = [t]
+        w.presented = [0]
+        for k, f in enumerate(files):
+            w.put_file((b"scan0", b"x%d" % k), f.content)
+        w.threads = rng.choice([1, 1, 2])
+        out.append(w)
+    return out
+
+
+def correspondence(ctx):
+    import runprops
+    import vlib
+    res = _correspondence(ctx)
+    k3 = [kf for kf in vlib.known_findings() if kf.get("id") == "K3" and kf.get("status") == "known"]
+    scen = [(runprops.Scenario("duppath", ctx["seed"], i), w) for i, w in enumerate(dup_path_worlds(ctx["seed"]))]
+    runs = runprops.run_scenarios(ctx, scen)
+    res["evaluations"] += len(runs)
+    for r in runs:
+        bad = oracles.c15(oracles.Ctx(r["w"], r["rr"], r["ce"]))
+        if bad and k3 and "counted as succeeded but does not verify" in bad:
+            res.setdefault("known_lines", [])
+            line = "K3: a torrent whose file list names one path twice: pieces of both entries are counted as succeeded, only the last one written is in the export file"
+            if line not in res["known_lines"]:
+                res["known_lines"].append(line)
+        elif bad:
+            res["findings"].append({"scenario": r["sc"].ident(), "violated_clause": bad, "world": runprops.describe_world(r["w"])})
+    return res
